@@ -75,7 +75,7 @@ func Run(r *engine.RNG, cfg Config, p Params) *Session {
 			// produce one event, possibly in several chunks
 			sz := eventSize(r, ps, p.BigEvent)
 			left := sz
-			failed := false
+			failed, abandoned := false, false
 			for left > 0 && !failed {
 				n := left
 				if r.Chance(50) {
@@ -96,6 +96,20 @@ func Run(r *engine.RNG, cfg Config, p Params) *Session {
 					s.Flush() // flush in the middle of an event
 					s.mark("flush-mid-event")
 				}
+				if left > 0 && r.Chance(3) {
+					// close and reopen with an event in progress: the partial event is dropped
+					s.Close()
+					s.mark("reopen-mid-event")
+					if s.Open() != "ok" {
+						s.fail("C06", "reopen", "reopening the queue failed")
+						return s
+					}
+					abandoned = true
+					break
+				}
+			}
+			if abandoned {
+				continue
 			}
 			if failed {
 				s.mark("write-failed")
